@@ -2,7 +2,7 @@
    This file contains only the property theorems; each is closed by an exact/apply of a
    lemma proved under GraphAlg/ and followed by Print Assumptions (+ non-vacuity Examples). *)
 From Coq Require Import List NArith Permutation.
-From HV Require Import GraphAlg.Model GraphAlg.PUf GraphAlg.PTopo GraphAlg.PSm.
+From HV Require Import GraphAlg.Model GraphAlg.PUf GraphAlg.PTopo GraphAlg.PSm GraphAlg.Check GraphAlg.PCheck.
 Import ListNotations.
 Open Scope N_scope.
 
@@ -176,3 +176,22 @@ Example C17_sm_nonvacuous :
     sm_try_merge s1 2 4 = ROk (s2, false) /\
     sm_subgraphs s2 = ROk [[0]; [1; 2]; [3]; [4]; [5]].
 Proof. vm_compute. do 3 eexists. repeat split. Qed.
+
+(* ---------------------------------------------------------------- executable forms used by the check *)
+
+(* the cycle test evaluated on the implementation's Err output is exactly [is_cycle] *)
+Theorem C17_is_cycle_b_spec : forall preds c, is_cycle_b preds c = true <-> is_cycle preds c.
+Proof. exact is_cycle_b_spec. Qed.
+Print Assumptions C17_is_cycle_b_spec.
+
+(* the order test evaluated on the implementation's Ok output implies the order clause *)
+Theorem C17_topo_order_b_sound : forall preds o,
+  topo_order_b preds o = true ->
+  NoDup o /\ forall s p, In s o -> In p (preds s) -> before p s o.
+Proof. exact topo_order_b_sound. Qed.
+Print Assumptions C17_topo_order_b_sound.
+
+(* on every history the model's outputs satisfy the union-find property form *)
+Theorem C17_uf_model_satisfies_property : forall ops, C17_uf_holds_b ops (uf_run [] ops) = true.
+Proof. exact uf_model_satisfies_property. Qed.
+Print Assumptions C17_uf_model_satisfies_property.
